@@ -352,7 +352,7 @@ def shrink_case(ctx, case, pred):
     return cur
 
 
-def run_api_property(ctx, pid, gen_cases, oracle, classify, rule, assumptions, known_class=None):
+def run_api_property(ctx, pid, gen_cases, oracle, classify, rule, assumptions, known_class=None, side_findings=None):
     verdict = C.Verdict(ctx)
     rng = C.Rng(ctx.seed).fork(pid)
     proof = C.proof_step(ctx, verdict, pid, extra_targets=["Run/ApiRun.vo"])
@@ -376,6 +376,11 @@ def run_api_property(ctx, pid, gen_cases, oracle, classify, rule, assumptions, k
     idx = [i for i, r in enumerate(results) if isinstance(r, list) and A.representable(r)]
     mism = A.model_replay(ctx, cases, results, idx, pid.lower()) if model_ok else {}
     ctx.log("oracle failures: %d, model mismatches: %d" % (len(failing), len(mism)))
+    side, side_cov = ([], {})
+    if side_findings is not None:
+        side, side_cov = side_findings(ctx, proof)
+        for key, what, rp in side[:3]:
+            verdict.add(key, what, rp)
     reported = set()
     for _, i, (ri, w) in failing:
         key = (known_class(cases[i], results[i], ri, w) if known_class else None) or classify(w)
@@ -388,7 +393,7 @@ def run_api_property(ctx, pid, gen_cases, oracle, classify, rule, assumptions, k
                                 lambda c, r, _w=w: (oracle(c, r) or (None, ""))[1][:25] == _w[:25])
         rs = A.run_impl(ctx, [small], pid.lower() + "_shrink", procs=1)[0]
         verdict.add(key, w, {"kind": "failing-input", "case": small, "observed": rs, "oracle": w})
-    if not failing:
+    if not failing and not side:
         if not proof["build_ok"]:
             verdict.add("proof-broken", "proof obligation of %s no longer checks (%s) and no failing request sequence was found among %d"
                         % (pid, ", ".join(proof.get("broken", [])), len(cases)),
@@ -414,6 +419,8 @@ def run_api_property(ctx, pid, gen_cases, oracle, classify, rule, assumptions, k
         "samples": [{"requests": [A.wire(q) for q in mid["reqs"][:6]],
                      "responses": [{"status": r["status"], "body": r["body"][:200]} for r in (results[len(cases) // 3] or [])[:6]]}],
     }
+    cov.update(side_cov)
+    cov["oracle_failures"] += len(side)
     C.write_evidence(ctx, cov, assumptions, nviol)
     return rc
 
